@@ -62,8 +62,7 @@ func c08One(c *run.C) {
 	o := codec.JSONOptsFromIndex((c.Idx / 9) % 8)
 	in, ndocs := c08Source(r, src)
 	rs := refDecode(src.Name, in)
-	if rs.Status != ref.OK || len(rs.Values) != ndocs || rs.Has("big-int") || rs.Has("float-overflow") || rs.Unsupported() ||
-		rs.Has("noop-in-counted") || rs.Has("noop-in-object") {
+	if rs.Status != ref.OK || len(rs.Values) != ndocs || rs.Has("big-int") || rs.Has("float-overflow") || rs.Unsupported() {
 		c.Observe("source_skipped", 1)
 		return
 	}
